@@ -12,6 +12,7 @@ import (
 	"fmt"
 	"github.com/notaryproject/notation-core-go/revocation"
 	"math/rand/v2"
+	"os"
 	"strings"
 	"time"
 
@@ -87,12 +88,19 @@ func (c05) Gen(r *rand.Rand, tier string, idx int) *core.Plan {
 	if r.IntN(12) == 0 {
 		p.Faults = append(p.Faults, rt.Fault{Task: 0, Op: "revocation.validate", Nth: r.IntN(int(w["rounds"])), Kind: "EIO"})
 	}
+	c05RealGen(r, p, idx)
 	return p
 }
+
+// c05RealStack is configuration B (c05_real.go): the real validator over a simulated network.
+var c05RealStack func(env *core.Env) *core.Result
 
 func (l c05) Exec(env *core.Env) *core.Result {
 	p := env.Plan
 	w := p.World
+	if (w["real"] == 1 || os.Getenv("VERIF_C05_STACK") == "B") && os.Getenv("VERIF_C05_STACK") != "A" && c05RealStack != nil {
+		return c05RealStack(env)
+	}
 	res := &core.Result{}
 	world.ResetSerial()
 	sim := core.NewSim(env, nil, 2000)
